@@ -205,7 +205,8 @@ def runG {Text : Type} (g : St Text → Ev Text → Bool) (fx : Fixes) (sem : Se
 /-! ## Line protocol
 
 Documents are numbered; the request carries their verdicts as a table
-`<sync>/<async>,…` where `<sync>` is `-` (the synchronous part succeeds) or the signature of its
+`<name>=<sync>/<async>,…` where `<name>` identifies the text in the harness's catalogue (ignored
+here), `<sync>` is `-` (the synchronous part succeeds) or the signature of its
 error diagnostics, `<async>` is `-` (the background analysis publishes nothing) or the signature of
 what it publishes. Events: `o<d>` open with document `d`, `c<d>` change to document `d`, `p`
 mainPublish, `f<i>` bgFinish of the `i`-th spawned task; versions are 1, 2, … in the order of the
@@ -220,8 +221,12 @@ def parseOptSig (s : String) : Option String := if s == "-" then none else some 
 
 def parseDocs (s : String) : Option (List DocRow) :=
   (s.splitOn ",").mapM (fun e =>
-    match e.splitOn "/" with
-    | [a, b] => if a.isEmpty || b.isEmpty then none else some ⟨parseOptSig a, parseOptSig b⟩
+    match e.splitOn "=" with
+    | [name, verdicts] =>
+      if name.isEmpty then none else
+      match verdicts.splitOn "/" with
+      | [a, b] => if a.isEmpty || b.isEmpty then none else some ⟨parseOptSig a, parseOptSig b⟩
+      | _ => none
     | _ => none)
 
 def tableSem (docs : List DocRow) : Sem Nat where
@@ -281,10 +286,13 @@ namespace ParolModel
 open Ls29
 
 -- @handler ls29 Ls29.handleLs29
-/-- Protocol: `ls29 <docs> <events>` → the published trace of the FAITHFUL machine, `ill-formed` if
-    the schedule is impossible, `not-quiescent` if it does not end with everything finished. -/
+/-- Protocol: `ls29 <docs> <events> <lazy|eager>` → the published trace of the FAITHFUL machine,
+    `ill-formed` if the schedule is impossible, `not-quiescent` if it does not end with everything
+    finished. The last word only tells the harness when to let the analyses compute (before or
+    after later edits); the machine has no notion of it. -/
 def Ls29.handleLs29 : List String → Option String
-  | [ds, es] => do
+  | [ds, es, mode] => do
+    if mode != "lazy" && mode != "eager" then none
     let docs ← parseDocs ds
     let evs ← parseSchedule docs.length es
     match run faithful (tableSem docs) evs St.init with
@@ -294,13 +302,13 @@ def Ls29.handleLs29 : List String → Option String
 
 -- @handler ls29-check Ls29.handleLs29Check
 /-- Property oracle on the implementation's trace:
-    `ls29-check <docs> <events> <published trace>` → `ok` iff the LAST published notification is
+    `ls29-check <docs> <events> <lazy|eager> <published trace>` → `ok` iff the LAST published notification is
     the diagnostics of the final text alone, tagged with the final version. On failure the reply
     says whether the faithful machine reproduces the implementation's trace and under which
     repairs the machine satisfies the property on this schedule (used for attribution):
     `fail last=<l> expected=<e> model=<agrees|differs> f8=<…> f35=<…> both=<…>`. -/
 def Ls29.handleLs29Check : List String → Option String
-  | [ds, es, tr] => do
+  | [ds, es, _, tr] => do
     let docs ← parseDocs ds
     let evs ← parseSchedule docs.length es
     match run faithful (tableSem docs) evs St.init with
